@@ -410,6 +410,7 @@ def rule_root_idem(ctx: Ctx) -> RuleResult:
 def rule_mapinj(ctx: Ctx) -> RuleResult:
     res = RuleResult("R-MAPINJ")
     n = 0
+    found = []
     for name, env in _default_order(ctx).items():
         pm = ctx.conf.need(env, "path_mapping", dict, f"in path configuration {name}")
         for key, mapping in pm.items():
@@ -418,12 +419,15 @@ def rule_mapinj(ctx: Ctx) -> RuleResult:
             dup = sorted({v for v in vals if vals.count(v) > 1})
             if dup:
                 ks = [k for k, v in mapping.items() if v in dup]
-                res.violation(["path_mapping", name, str(key), "not one-to-one"],
-                              f"path_mapping[{key!r}] ({name}) maps {ks} onto the same value {dup}: a path spelled with the second name "
-                              f"resolves to a Sid whose path is spelled with the first", env_file(name, ctx), 0)
+                # not a violation by itself: a path spelled with the second name does not format back to itself and is
+                # rejected by the re-format comparison (R-REFORMAT lists these tables among what it discharges)
+                found.append((name, key, ks))
+                res.note(f"path_mapping[{key!r}] ({name})", f"{ks} map onto the same value {dup}; only the first spelling is a conform path "
+                                                              f"(enforced by R-REFORMAT)")
             else:
                 res.ok(f"path_mapping[{key!r}] ({name})", f"one-to-one ({len(mapping)} pairs)")
     res.floor(n, 2, "mappings")
+    res._found = found
     return res
 
 
